@@ -2,7 +2,9 @@ package rules
 
 import (
 	"fmt"
+	"go/types"
 	"sort"
+	"strings"
 
 	"verif/sa/core"
 )
@@ -35,6 +37,53 @@ func Dev(name string, c *core.Ctx) {
 	case "pkgstate":
 		DumpPkgState(c)
 	default:
+		if strings.HasPrefix(name, "ir:") {
+			parts := strings.Split(name, ":")
+			DumpIR(c, parts[1], parts[2])
+			return
+		}
 		fmt.Println("unknown dev dump", name)
+	}
+}
+
+// DumpIR prints the templates of one compile function (developer aid).
+func DumpIR(c *core.Ctx, dialect, fn string) {
+	d := jitdecDialect
+	if dialect == "encoder" {
+		d = encoderDialect
+	}
+	p := c.Prog
+	an := &irAnalysis{funcs: irFuncs(p, d), viols: map[string][]irViolation{}, paths: map[string]int{}, undec: map[string]string{}, single: map[string]bool{}, emitsSave: map[string]bool{}, untaggedCallers: map[string]map[string]bool{}}
+	info := an.funcs[fn]
+	if info == nil {
+		fmt.Println("no such function")
+		return
+	}
+	br := branchOps(p, d)
+	paths, ok, why := EnumPathsOpt(p, info.fd, info.fd.Body.List, 2, 6000, irClassKey(p, d, an, br, info), irIsolate(p))
+	fmt.Println("paths:", len(paths), ok, why)
+	for i, pt := range paths {
+		st := &irState{p: p, d: d, info: info, an: an, branch: br, labels: map[types.Object]labelVal{}, truth: map[string]bool{}}
+		st.run(pt)
+		if st.infeasible {
+			continue
+		}
+		st.finish(info.fd.End())
+		if len(st.viol) == 0 {
+			continue
+		}
+		fmt.Printf("--- path %d violations %d\n", i, len(st.viol))
+		for _, e := range pt {
+			if e.Cond != nil {
+				fmt.Printf("   cond %s = %v\n", exprStr(e.Cond), e.Taken)
+			}
+		}
+		for j, in := range st.instrs {
+			fmt.Printf("   %3d %-28s br=%d pinned=%v handed=%v target=%d %s\n", j, in.op, in.branch, in.pinned, in.handed, in.target, p.Pos(in.pos))
+		}
+		for _, v := range st.viol {
+			fmt.Println("   !!", v.rule, v.cons)
+		}
+		break
 	}
 }
